@@ -29,6 +29,7 @@ type Spec struct {
 	Reader   string             `json:"reader"`    // func | default
 	External bool               `json:"external"`  // IsExternalRefsAllowed
 	Reuse    bool               `json:"reuse,omitempty"`
+	MapSeed  uint64             `json:"map_seed,omitempty"` // 0 = sorted map iteration inside the loader; else seeded permutation
 	Files    []File             `json:"files"`
 	Decoys   []string           `json:"decoys,omitempty"`  // paths of files nothing refers to
 	Faults   []simenv.ReadFault `json:"faults,omitempty"`  // Loc = "file:<index>"
@@ -320,6 +321,9 @@ func Gen(seed uint64, prop, tier string) *Spec {
 	s.Reader = simfw.Pick(r, []string{"func", "func", "default"})
 	s.External = r.Chance(3, 5)
 	s.Reuse = r.Chance(1, 6)
+	if r.Chance(1, 3) {
+		s.MapSeed = r.Uint64() | 1
+	}
 	g := &gen{r: r, s: s}
 	// layout
 	dirs := []string{"", "specs/", "specs/v1/", "common/", "common/deep/er/"}
